@@ -613,8 +613,16 @@ where
                         )));
                     }
                     Some(content) => {
-                        // TODO check length
-                        io::copy(&mut content.take(*length), dest)?;
+                        let copied = io::copy(&mut content.take(*length), dest)?;
+                        if copied != *length {
+                            // The block header announces `length` bytes: fewer
+                            // bytes would make the archive unreadable
+                            return Err(io::Error::new(
+                                io::ErrorKind::UnexpectedEof,
+                                "Source ends before the announced content length",
+                            )
+                            .into());
+                        }
                     }
                 }
                 Ok(())
